@@ -26,8 +26,9 @@ func init() {
 				"C11.replay (Bootstrap sets maintenance mode before the first insert and restores it by defer; feeds events of dbTopologicalEvents(index*batch, batch) in slice order to InsertEventAndRunConsensus — the live insert path; dbTopologicalEvents reads keys built by the writer's key function, ascending), " +
 				"C11.topo (the replay source has no holes: a topological index is consumed only by an event that was stored — Bootstrap reads consecutive keys and stops at the first missing one), C11.head (every transition to Babbling is preceded in the same function by core.setHeadAndSeq or a successful core.fastForward), C11.sibling (thorough: badger_store_mobile.go equals badger_store.go modulo the badger import path). " +
 				"C11.open (the database is opened with Truncate enabled: a kill in the middle of a value-log write leaves a partial last entry, which badger refuses to open unless it may truncate it — without the option the node cannot restart at all). " +
+				"C11.config (the engine derives bootstrap from maintenance-mode and store from bootstrap in dependency order, before it chooses the store: otherwise a restart with --maintenance-mode alone silently runs on an empty in-memory store), C11.commit (a database writer reports success only after Txn.Commit()==nil; shared with C16.commit / C09.commit). " +
 				"NOT decided: equality of re-delivered blocks (needs determinism behaviourally), durability with SyncWrites=false under power loss, arbitrary kill instants inside badger."},
-		Rules:    []ruleFunc{c11atomic, c11first, c11replay, c11head, func(p *Prog, r *Report) { topoRule(p, r, "C11.topo") }, c11open},
+		Rules:    []ruleFunc{c11atomic, c11first, c11replay, c11head, func(p *Prog, r *Report) { topoRule(p, r, "C11.topo") }, c11open, func(p *Prog, r *Report) { commitRule(p, r, "C11.commit") }, func(p *Prog, r *Report) { configRule(p, r, "C11.config") }},
 		Thorough: []ruleFunc{siblingRule("C11.sibling")},
 	})
 }
@@ -456,4 +457,173 @@ func c11open(p *Prog, r *Report) {
 	if n == 0 {
 		r.Fail(rule, "badger.Open", "-", "", "no badger.Open call found in the store")
 	}
+}
+
+/* ---------- C11.commit / C16.commit / C09.commit ---------- */
+
+// commitRule: a database writer of BadgerStore reports success only after its transaction was
+// committed. The only success without a commit that is accepted is "nothing to write": a path on
+// which a slice or map argument is known to be empty.
+func commitRule(p *Prog, r *Report, rule string) {
+	r.Rule(rule, 7, "every success return of a dbSet* function of BadgerStore is reached after Txn.Commit()==nil (or returns Commit's own result); a return without a commit is accepted only where an argument is known to be empty")
+	n := 0
+	for _, fn := range p.Mod {
+		if fn.Signature.Recv() == nil || recvNamedSig(fn) != "BadgerStore" || !strings.HasPrefix(fn.Name(), "dbSet") || fn.Signature.Results().Len() == 0 {
+			continue
+		}
+		eidx := fn.Signature.Results().Len() - 1
+		if !isErrorType(fn.Signature.Results().At(eidx).Type()) {
+			continue
+		}
+		n++
+		isCommit := func(v ssa.Value) bool {
+			c, _ := callOf(v)
+			return c != nil && isBadgerTxnMethod(calleeFunc(c.Common()), "Commit")
+		}
+		qCommitted := func(l Lit) bool {
+			v, isNil, ok := nilTest(l)
+			return ok && isNil && flowsFromLocal(v, isCommit)
+		}
+		qEmpty := func(l Lit) bool {
+			x, y, ok := eqLit(l)
+			if !ok {
+				return false
+			}
+			for _, pr := range [][2]ssa.Value{{x, y}, {y, x}} {
+				lx, isLen := isLenOf(pr[0])
+				c, isC := pr[1].(*ssa.Const)
+				if isLen && isC && c.Value != nil && c.Value.Kind() == constant.Int && c.Value.String() == "0" {
+					if _, isPar := unwrap(lx).(*ssa.Parameter); isPar {
+						return true
+					}
+				}
+			}
+			return false
+		}
+		ok, where := true, p.pos(fn.Pos())
+		for _, b := range fn.Blocks {
+			if len(b.Instrs) == 0 || (b.Index != 0 && len(b.Preds) == 0) {
+				continue
+			}
+			ret, isRet := b.Instrs[len(b.Instrs)-1].(*ssa.Return)
+			if !isRet {
+				continue
+			}
+			for _, rp := range retPointsOf(ret, eidx) {
+				if neverNilErr(rp.val, 0) || flowsFromLocal(rp.val, isCommit) {
+					continue
+				}
+				v := rp.val
+				qErr := func(l Lit) bool {
+					x, isNil, ok := nilTest(l)
+					return ok && !isNil && (x == v || sameErrVar(x, v))
+				}
+				if g, _ := p.holdsAtRet(rp, []Pred{qCommitted, qEmpty, qErr}, func(m uint32) bool { return m != 0 }); !g {
+					ok = false
+					where = p.ipos(ret)
+				}
+			}
+		}
+		r.Check(ok, rule, fn.Name()+":success-means-committed", where, fnName(fn), "success is returned only after the commit succeeded",
+			"the database writer can report success without having committed anything: the record on disk stays at an older version (for a block: without the signatures and state hash added since) and is what the node serves or replays once the cached copy is gone")
+	}
+	if n == 0 {
+		r.Anchor(rule, "BadgerStore.dbSet*")
+	}
+}
+
+/* ---------- C11.config ---------- */
+
+// configRule: the engine derives flags from flags before it chooses the store
+// (maintenance-mode => bootstrap, bootstrap => store). Each derivation `if Config.A { Config.B = true }`
+// must see the final value of A: no statement of validateConfig may write A after that test. Both
+// named derivations must exist, and validateConfig runs before the store is chosen.
+func configRule(p *Prog, r *Report, rule string) {
+	r.Rule(rule, 3, "validateConfig: every derivation `if Config.A { Config.B = true }` tests A after its last write (maintenance-mode => bootstrap => store hold together on exit); Init runs validateConfig before it chooses the store")
+	const BAB = "src/babble"
+	vc := p.Func(BAB, "Babble", "validateConfig")
+	initF := p.Func(BAB, "Babble", "Init")
+	initStore := p.Func(BAB, "Babble", "initStore")
+	if vc == nil || initF == nil || initStore == nil {
+		r.Anchor(rule, "babble.(*Babble).validateConfig / Init / initStore")
+		return
+	}
+	isConfigField := func(fv *types.Var) bool {
+		if fv == nil || fv.Pkg() == nil {
+			return false
+		}
+		return strings.HasSuffix(fv.Pkg().Path(), "/src/config")
+	}
+	type deriv struct {
+		a, b string
+		ok   bool
+		at   ssa.Instruction
+	}
+	var ds []deriv
+	writes := map[*types.Var][]ssa.Instruction{}
+	for _, b := range vc.Blocks {
+		for _, in := range b.Instrs {
+			if st, ok := in.(*ssa.Store); ok {
+				if fv, _ := fieldOf(st.Addr); isConfigField(fv) {
+					writes[fv] = append(writes[fv], st)
+				}
+			}
+		}
+	}
+	for _, b := range vc.Blocks {
+		for _, in := range b.Instrs {
+			st, ok := in.(*ssa.Store)
+			if !ok {
+				continue
+			}
+			fb, _ := fieldOf(st.Addr)
+			c, isC := st.Val.(*ssa.Const)
+			if !isConfigField(fb) || !isC || c.Value == nil || c.Value.Kind() != constant.Bool || !constant.BoolVal(c.Value) {
+				continue
+			}
+			for _, l := range p.Facts(vc).At(b) {
+				if !l.Pos || l.Nil {
+					continue
+				}
+				fa, _ := fieldOf(l.V)
+				ld, isIn := unwrap(l.V).(ssa.Instruction)
+				if !isConfigField(fa) || !isIn || fa == fb {
+					continue
+				}
+				d := deriv{a: fa.Name(), b: fb.Name(), ok: true, at: st}
+				for _, w := range writes[fa] {
+					if canFollow(ld, w) {
+						d.ok = false
+					}
+				}
+				ds = append(ds, d)
+			}
+		}
+	}
+	have := map[string]bool{}
+	for _, d := range ds {
+		have[d.a+"=>"+d.b] = true
+		r.Check(d.ok, rule, "validateConfig:"+d.a+"=>"+d.b+":tested-after-last-write", p.ipos(d.at), fnName(vc), d.a+" is final when "+d.b+" is derived from it",
+			"Config."+d.a+" is written after the test that derives Config."+d.b+" from it: the implication does not hold on exit (a node restarted with --maintenance-mode alone gets Bootstrap without Store, an in-memory store, and silently reloads nothing from its database)")
+	}
+	for _, want := range []string{"MaintenanceMode=>Bootstrap", "Bootstrap=>Store"} {
+		if !have[want] {
+			r.Fail(rule, "validateConfig:"+want+":tested-after-last-write", p.pos(vc.Pos()), fnName(vc), "derivation "+want+" not found in validateConfig")
+		}
+	}
+	// Init: validateConfig runs before initStore on every path
+	okOrder := false
+	vcs := callsIn(initF, func(f *types.Func) bool { return f.Name() == "validateConfig" && recvNamed(f) == "Babble" })
+	for _, c := range callsIn(initF, func(f *types.Func) bool { return f.Name() == "initStore" && recvNamed(f) == "Babble" }) {
+		okOrder = false
+		for _, v := range vcs {
+			if dominates(v, c) {
+				okOrder = true
+			}
+		}
+		if !okOrder {
+			break
+		}
+	}
+	r.Check(okOrder, rule, "Init:validate-before-store", p.pos(initF.Pos()), fnName(initF), "the store is chosen after the configuration was validated", "Init chooses the store on a path on which validateConfig() has not run")
 }
